@@ -294,11 +294,11 @@ def py_value(v):
     return v
 
 
-def run_numpy(g, fname, debug):
+def run_numpy(g, fname, debug, fca=None):
     import functional_algorithms as fa
 
     with contextlib.redirect_stdout(io.StringIO()):
-        src = g.tostring(fa.targets.numpy, debug=debug)
+        src = g.tostring(fa.targets.numpy, debug=debug) if fca is None else g.tostring(fa.targets.numpy, debug=debug, force_cast_arguments=fca)
     probs = pysrc_problems(src, fname)
     if any(c == "emitted-source-does-not-parse" for c, _ in probs):
         return src, probs, None
@@ -315,7 +315,7 @@ def outcome(fn, args):
         return ("raises", type(e).__name__)
 
 
-def check_program(target, g, syms, fname, rng, debug=0, what=""):
+def check_program(target, g, syms, fname, rng, debug=0, what="", fca=None):
     """syms: [(name, typename)].  Returns (violations, info)."""
     import functional_algorithms as fa
 
@@ -327,7 +327,7 @@ def check_program(target, g, syms, fname, rng, debug=0, what=""):
         if target == "python":
             src, probs, fn = run_python(g, syms, fname, None)
         elif target == "numpy":
-            src, probs, fn = run_numpy(g, fname, debug)
+            src, probs, fn = run_numpy(g, fname, debug, fca)
         else:
             with contextlib.redirect_stdout(io.StringIO()):
                 src = g.tostring(fa.targets.cpp)
@@ -533,7 +533,7 @@ def gen_cases(target):
     sorts = {"python": ("f",), "numpy": ("f32", "f64", "f16"), "cpp": ("f32", "f64")}[target]
     eu, eb = declared(target, EXTRA_UNARY), declared(target, EXTRA_BINARY)
     return st.builds(
-        lambda spec, vseed, refs, rw, debug, cf: {"target": target, "spec": progs.prune(spec), "vseed": vseed, "refs": refs, "rewrite": rw, "debug": debug, "call_from": cf},
+        lambda spec, vseed, refs, rw, debug, cf, fca: {"target": target, "spec": progs.prune(spec), "vseed": vseed, "refs": refs, "rewrite": rw, "debug": debug, "call_from": cf, "fca": fca},
         progs.programs(
             main_sorts=sorts,
             max_nodes=16,
@@ -550,8 +550,9 @@ def gen_cases(target):
         st.integers(0, 2**31 - 1),
         st.dictionaries(st.integers(0, 20).map(str), st.sampled_from(["a", "b", "a", "t", "a", "fn", "result", "abs_x", "a"]), max_size=5),
         st.booleans(),
-        st.integers(0, 1),
+        st.sampled_from([0, 1, 0, 1, 2]),  # numpy: debug level (2 also prints every intermediate value)
         st.one_of(st.none(), st.integers(1, 6)),
+        st.sampled_from([None, None, False, True]),  # numpy: force_cast_arguments
     )
 
 
@@ -575,7 +576,7 @@ def check_case(case, batch=None):
     if g is None:
         return bad or [], {"rejected": bad is None}
     rng = np.random.Generator(np.random.PCG64(case.get("vseed", 0)))
-    bad, info = check_program(target, g, syms, "fn", rng, debug=case.get("debug", 0) if target == "numpy" else 0, what="generated")
+    bad, info = check_program(target, g, syms, "fn", rng, debug=case.get("debug", 0) if target == "numpy" else 0, what="generated", fca=case.get("fca") if target == "numpy" else None)
     if bad is None:
         return [], {"rejected": True}
     out = list(bad)
